@@ -88,6 +88,11 @@ func (d *D) Base(idx int, ctx *core.Ctx) *core.Scenario {
 		sc = work.Generated(r, o, "C02", ctx.Seed, idx)
 	}
 	sc.Kind = "l1:" + sc.Kind
+	if idx%11 == 5 {
+		sc.Program = work.AnyWrap(r)
+		sc.Kind = "l1:anywrap"
+		sc.Inputs, sc.Events = nil, nil
+	}
 	if r.Chance(0.5) {
 		sc.Faults = []core.Fault{{Kind: "stop", At: 1 + r.Intn(400)}}
 	}
